@@ -1,11 +1,11 @@
 PROPERTY = "C10"
 LEVEL = "proof"
 LEAN_MODULES = ["CifModel.Props.C10", "CifModel.Lemmas.NumbLink"]
-REQUIRED = ["CifModel.C10_to_double_big_partial", "CifModel.C10_to_double_core", "CifModel.C10_round_to_int_ties_even",
-            "CifModel.C10_rne_is_nearest", "CifModel.C10_su_scaled", "CifModel.C10_rejects_unchanged", "CifModel.C10_accepts_fields",
+REQUIRED = ["CifModel.C10_to_double_big", "CifModel.C10_to_double_zero", "CifModel.C10_to_double_big_partial", "CifModel.C10_to_double_core", "CifModel.C10_round_to_int_ties_even",
+            "CifModel.C10_rne_is_nearest", "CifModel.C10_syntax", "CifModel.C10_su_scaled", "CifModel.C10_rejects_unchanged", "CifModel.C10_accepts_fields",
             "CifModel.C10_exponent_no_overflow", "CifModel.C10_scale_within_int", "CifModel.C10_cex_scale_exceeds_int_pinned",
             "CifModel.C10_scale_within_int_pinned_refuted",
-            "CifModel.C10_init_correctly_rounded",
+            "CifModel.C10_init_correctly_rounded", "CifModel.C10_init_text_roundtrip", "CifModel.C10_autoinit_text_roundtrip", "CifModel.C10_autoinit_scale",
             "CifModel.Lemmas.NumbLink.link_chars", "CifModel.Lemmas.NumbLink.link_int", "CifModel.Lemmas.NumbLink.link_float",
             "CifModel.Lemmas.NumbLink.link_bignum", "CifModel.Lemmas.NumbLink.link_misc", "CifModel.Lemmas.NumbLink.link_ldexp"]
 GEN = ["NumbConsts", "ErrCodes"]
@@ -27,18 +27,13 @@ ASSUMPTIONS = [
     "IEEE 754 binary64 double, 32-bit int (constants re-extracted and link-checked on every run)",
 ]
 PARTIAL = [
-    "C10_to_double_big_partial: proved for digit strings without leading/trailing zeroes and most significant place in (-322, 308]; "
-    "missing for C10_to_double_big_full: zero-stripping is value preserving, and normal range implies that window",
-    "C10_syntax_full: stated, not proved in Lean (acceptance is checked against a Python regex of the grammar by family numb)",
-    "C10_init_text_roundtrip_full, C10_autoinit_scale_full: stated, not proved in Lean (checked by family initnumb: parse-back in the "
-    "executor, largest-scale rule recomputed with exact rationals)",
     "C10_limbs_refine_big: not attempted; the limb level is covered by correspondence only",
 ]
 LEVEL_TEXT = ("Proof at the exact-arithmetic level: the model of to_double() returns the IEEE 754 round-to-nearest-even double for every "
-              "digit string without leading/trailing zeroes of up to 2048 digits (C10_to_double_big_partial, built on C10_to_double_core, "
+              "digit string of up to 2048 significant digits, leading and trailing zeroes allowed (C10_to_double_big, built on C10_to_double_core, "
               "which holds for every fraction and every admissible shift estimate); round_to_int as written is round-half-even; "
               "init_numb records the correctly rounded digit strings; the saturating exponent accumulation stays below 2^31 and the scale arithmetic of every accepted text of up to a line stays within int (C10_scale_within_int). "
-              "Acceptance, text round trip and autoinit scale selection are carried by the correspondence families with exact oracles.")
-LEVEL_NOTE = ("Partial parts: syntax, init text round trip and autoinit scale are stated (def ..._full) but not proved; the limb level of the "
+              "Acceptance is proved (C10_syntax: parseNumb accepts exactly NumberSyntax, with the denoted fields). The init/autoinit text round trip is proved (C10_init_text_roundtrip). Autoinit chooses the largest scale with rounded su <= su_rule (C10_autoinit_scale).")
+LEVEL_NOTE = ("Partial parts: the limb level of the "
               "bignum code is correspondence-only. One open finding (MSP over-estimate); two findings of this group are fixed (d4436fb, e89d5d7).")
 TECHNIQUE = "Lean 4 proofs about an executable exact-arithmetic model + differential execution against the real code with exact-rational oracles"
